@@ -42,7 +42,10 @@ def run_history(rec, sc, assemblage=None, fractions=None, F0=None, collect=None)
     eps = 0.0
     for k in range(sc["nupd"]):
         nbefore = len(m.orientations)
-        tr, Fn = rec.update(m, params, F, get_L, (t, t + dt, get_x))
+        kw = {}
+        if sc.get("regime_switch"):
+            kw["get_regime"] = (lambda tt, xx, sc=sc: MT.regime_at(sc, tt))
+        tr, Fn = rec.update(m, params, F, get_L, (t, t + dt, get_x), **kw)
         u = dict(index=k, t0=t, t1=t + dt, trace=tr)
         out["updates"].append(u)
         # earlier snapshots untouched, list growth
@@ -100,7 +103,7 @@ def validate_traces(chk, hist, bad, rtol_rhs=1e-9):
             chk.cov["eigmax_residual_max"] = max(chk.cov.get("eigmax_residual_max", 0.0), res)
             if res > 1e-9:
                 bad.append((sc, f"oracle hypothesis is_eigmax violated by eigvalsh: {s!r} vs closed form {ref!r}"))
-            lines.append(MT.rhs_line(sc, params, L, s, Sd, call["y"]))
+            lines.append(MT.rhs_line(sc, params, L, s, Sd, call["y"], t=call["t"]))
             meta.append(("rhs", u, call))
     if not lines:
         return
@@ -145,6 +148,11 @@ def scenarios(chk, tier, regimes=(4, 4, 4, 6, 0, 7), extra_diffusion=True):
             scs.append(MT.scenario(rng, regime=regime, pair=pair, nupd=2))
     for _ in range(N):
         scs.append(MT.scenario(rng, regime=int(regimes[rng.integers(len(regimes))])))
+    # the regime supplied by a get_regime callable and changing along the history
+    for r1, r2 in ((4, 0), (7, 4), (4, 6), (6, 4)):
+        sc = MT.scenario(rng, regime=r1, nupd=2, lkind="simple")
+        sc["regime_switch"] = [r1, r2, float(rng.uniform(0.05, 0.3))]
+        scs.append(sc)
     if tier == "thorough":
         scs.append(MT.scenario(rng, regime=4, n=500, nupd=2))
         scs.append(MT.scenario(rng, regime=4, n=20, nupd=100, strain=3.0))
